@@ -1023,3 +1023,253 @@ Theorem cancel_two_steps : forall sc sched j e seg,
 Proof.
   intros sc sched j e seg G L. rewrite exec_app. apply (two_steps_aux sc j e); [apply inv_exec|]. left. auto.
 Qed.
+
+
+(* ================= 5. deadlock freedom of the group ================= *)
+
+(* every worker function has returned *)
+Definition allret (sc : script) (s : st) : Prop := forall i, i < length sc -> g_ret (s_g s i) <> None.
+
+Lemma allret_caller : forall sc s, SInv sc s -> allret sc s -> nsp sc (s_c s) = length sc.
+Proof.
+  intros sc s I A. pose proof (i_range sc s I) as R. pose proof (i_spawned sc s I) as S.
+  destruct (s_c s) eqn:C; simpl in *; try reflexivity; exfalso.
+  - apply (A i R). rewrite (sinv_unspawned sc s I i); [reflexivity|]. rewrite C. simpl. lia.
+  - apply (A i R). rewrite (sinv_unspawned sc s I i); [reflexivity|]. rewrite C. simpl. lia.
+Qed.
+
+Lemma allret_no_f : forall sc s, SInv sc s -> allret sc s -> forall i, s_g s i <> GF.
+Proof.
+  intros sc s I A i G. assert (L : i < length sc) by (apply (sinv_started_lt sc s I); rewrite G; discriminate).
+  apply (A i L). rewrite G. reflexivity.
+Qed.
+
+Definition obr (p : gpc) : nat := match p with GB1 _ => 3 | GB2 _ => 2 | GBX _ => 1 | _ => 0 end.
+
+(* rounds until the Once is released *)
+Definition orank (s : st) : nat :=
+  match s_once s with ONew => 4 | ORun j => obr (s_g s j) | ODone => 0 end.
+
+Definition gr (p : gpc) (o : nat) : nat :=
+  match p with GOnce _ => o + 2 | GB1 _ => 4 | GB2 _ => 3 | GBX _ => 2 | GDefer _ => 1 | _ => 0 end.
+
+(* rounds until goroutine i is gone *)
+Definition grank (i : nat) (s : st) : nat := gr (s_g s i) (orank s).
+
+Definition ghelp (i : nat) (s : st) : tid :=
+  match s_g s i, s_once s with GOnce _, ORun j => TG j | _, _ => TG i end.
+
+Lemma orank_upd : forall sc s s' i p, SInv sc s -> s_once s' = s_once s -> s_g s' = gupd (s_g s) i p ->
+  (in_body (s_g s i) = true -> obr p <= obr (s_g s i)) -> orank s' <= orank s.
+Proof.
+  intros sc s s' i p I O G B. unfold orank. rewrite O, G.
+  destruct (s_once s) as [|j|] eqn:Oj; try lia. gcase j i; [|lia]. apply B. apply (i_once_body sc s I i Oj).
+Qed.
+
+Lemma orank_same : forall s s', s_once s' = s_once s -> s_g s' = s_g s -> orank s' = orank s.
+Proof. intros s s' O G. unfold orank. rewrite O, G. reflexivity. Qed.
+
+Lemma orank_mono : forall sc s t e s', SInv sc s -> act sc s t = Some (e, s') -> orank s' <= orank s.
+Proof.
+  intros sc s t e s' I H.
+  act_inv H.
+  all: try (rewrite (orank_same s (mkSt _ _ _ _ _ _)); [lia|reflexivity|reflexivity]).
+  all: try (eapply (orank_upd sc s _ i); [exact I|reflexivity|reflexivity|]; rewrite ?Heqg; simpl; try discriminate; try lia).
+  all: unfold orank; simpl; rewrite ?Heqo, ?gupd_same; simpl; try lia.
+Qed.
+
+Lemma gr_mono : forall p o o', o' <= o -> gr p o' <= gr p o.
+Proof. intros p o o' L. destruct p; simpl; lia. Qed.
+
+Lemma grank_mono : forall sc s t e s' i, SInv sc s -> allret sc s -> act sc s t = Some (e, s') -> grank i s' <= grank i s.
+Proof.
+  intros sc s t e s' j I A H. pose proof (orank_mono sc s t e s' I H) as OM.
+  pose proof (allret_caller sc s I A) as AC. pose proof (allret_no_f sc s I A) as NF.
+  unfold grank. act_inv H; simpl s_g in *; try (apply gr_mono; exact OM).
+  all: try (gcase j i; [|apply gr_mono; exact OM]).
+  all: try (exfalso; apply (NF i); assumption).
+  all: revert OM; match goal with |- context [orank (mkSt ?a ?b ?c ?d ?e ?f)] => generalize (orank (mkSt a b c d e f)) end; intros o' OM.
+  all: rewrite ?Heqg; simpl; unfold orank in *; rewrite ?Heqo in *; try lia.
+Qed.
+
+Lemma grank_prog : forall sc s i, SInv sc s -> 0 < grank i s ->
+  exists ev s', act sc s (ghelp i s) = Some (ev, s') /\ grank i s' < grank i s.
+Proof.
+  intros sc s i I Pos. unfold grank, ghelp in *.
+  destruct (s_g s i) eqn:G; simpl in Pos; try lia.
+  - (* before errOnce.Do *) destruct (s_once s) as [|j|] eqn:O.
+    + unfold act. rewrite G, O. eexists; eexists; split; [reflexivity|]. simpl. rewrite gupd_same. unfold orank. rewrite O. simpl. lia.
+    + pose proof (i_once_body sc s I j O) as B. assert (N : i <> j) by (intros ->; rewrite G in B; discriminate B).
+      unfold act. destruct (s_g s j) eqn:Gj; try discriminate B.
+      all: eexists; eexists; split; [reflexivity|]; simpl; rewrite gupd_other by exact N; rewrite G; simpl;
+        unfold orank; simpl; rewrite ?O, ?gupd_same, ?Gj; simpl; lia.
+    + unfold act. rewrite G, O. eexists; eexists; split; [reflexivity|]. simpl. rewrite gupd_same. simpl. unfold orank. rewrite O. lia.
+  - unfold act. rewrite G. eexists; eexists; split; [reflexivity|]. simpl. rewrite gupd_same. simpl. lia.
+  - unfold act. rewrite G. eexists; eexists; split; [reflexivity|]. simpl. rewrite gupd_same. simpl. lia.
+  - unfold act. rewrite G. eexists; eexists; split; [reflexivity|]. simpl. rewrite gupd_same. simpl. lia.
+  - assert (C : 0 < s_cnt s) by (apply (sinv_cnt_pos sc s I i); rewrite G; [discriminate|reflexivity]).
+    unfold act. rewrite G. destruct (s_cnt s); [lia|]. eexists; eexists; split; [reflexivity|]. simpl. rewrite gupd_same. simpl. lia.
+Qed.
+
+Lemma ghelp_keep : forall sc s t ev s' i, SInv sc s -> allret sc s -> act sc s t = Some (ev, s') -> 0 < grank i s ->
+  t <> ghelp i s -> grank i s' = grank i s -> ghelp i s' = ghelp i s.
+Proof.
+  intros sc s t ev s' j I A H Pos N E.
+  pose proof (allret_caller sc s I A) as AC. pose proof (allret_no_f sc s I A) as NF.
+  pose proof (i_range sc s I) as RG. pose proof (i_body_once sc s I) as BO.
+  unfold ghelp in *. act_inv H; simpl s_g in *; simpl s_once in *; auto.
+  1: { simpl in AC. lia. }
+  all: try (exfalso; apply (NF i); assumption).
+  all: gcase j i; [exfalso; rewrite ?Heqg in N; try (match goal with O : s_once _ = _ |- _ => rewrite O in N end); apply N; reflexivity|]; try reflexivity.
+  - (* another goroutine entered the Once *)
+    destruct (s_g s j) eqn:Gj; try reflexivity. exfalso.
+    unfold grank in E. simpl in E. rewrite gupd_other in E by assumption. rewrite Gj in E. simpl in E.
+    unfold orank in E. simpl in E. rewrite Heqo, gupd_same in E. simpl in E. lia.
+  - (* the runner released the Once *)
+    destruct (s_g s j) eqn:Gj; try reflexivity. exfalso. rewrite (BO i) in N; [|rewrite Heqg; reflexivity]. apply N. reflexivity.
+Qed.
+
+Section ExitRounds.
+  Variables (sc : script) (i : nat).
+
+  Definition GP (c : cfg) : Prop := Inv sc c /\ allret sc (fst c).
+
+  Lemma GP_step : forall c t, GP c -> GP (step sc c t).
+  Proof.
+    intros c t [HI A]. split; [apply inv_step; exact HI|]. intros j L. specialize (A j L).
+    destruct (g_ret (s_g (fst c) j)) as [r|] eqn:G; [|contradiction]. rewrite (g_ret_step sc c t j r HI G). discriminate.
+  Qed.
+
+  Lemma GP_mono : forall c t, GP c -> grank i (fst (step sc c t)) <= grank i (fst c).
+  Proof.
+    intros c t [[I _] A]. destruct (step_cases sc c t) as [[_ ->]|(ev & s' & H & ->)]; [lia|].
+    simpl. eapply grank_mono; eauto.
+  Qed.
+
+  Lemma GP_prog : forall c, GP c -> 0 < grank i (fst c) -> grank i (fst (step sc c (ghelp i (fst c)))) < grank i (fst c).
+  Proof.
+    intros [s tr] [[I _] A] Pos. simpl in *. destruct (grank_prog sc s i I Pos) as (ev & s' & H & L).
+    rewrite (step_some _ _ _ _ _ _ H). exact L.
+  Qed.
+
+  Lemma GP_keep : forall c t, GP c -> 0 < grank i (fst c) -> t <> ghelp i (fst c) ->
+    grank i (fst (step sc c t)) = grank i (fst c) -> ghelp i (fst (step sc c t)) = ghelp i (fst c).
+  Proof.
+    intros c t [[I _] A] Pos N E. destruct (step_cases sc c t) as [[_ ->]|(ev & s' & H & R)]; [reflexivity|].
+    rewrite R in *. simpl in *. eapply ghelp_keep; eauto.
+  Qed.
+
+  Lemma GP_fair : forall c seg, GP c -> 0 < grank i (fst c) -> efair sc seg -> In (ghelp i (fst c)) seg.
+  Proof.
+    intros [s tr] seg [[I _] A] Pos [_ F]. simpl in *. unfold ghelp. unfold grank in Pos.
+    assert (Li : i < length sc).
+    { apply (sinv_started_lt sc s I). intros N. rewrite N in Pos. simpl in Pos. lia. }
+    destruct (s_g s i); try (apply F; exact Li). destruct (s_once s) as [|j|] eqn:O; try (apply F; exact Li).
+    apply F. apply (sinv_started_lt sc s I). pose proof (i_once_body sc s I j O) as B. intros N. rewrite N in B. discriminate B.
+  Qed.
+
+  Lemma grank_le6 : forall sc' s, SInv sc' s -> grank i s <= 6.
+  Proof.
+    intros sc' s I. unfold grank, gr, orank. destruct (s_g s i); try lia.
+    destruct (s_once s); try lia. unfold obr. destruct (s_g s i0); lia.
+  Qed.
+
+  Lemma exits_within_six_rounds : forall c c', GP c -> erounds sc 6 c c' -> GP c' /\ grank i (fst c') = 0.
+  Proof.
+    intros c c' Pc R.
+    apply (rounds_zero sc GP (fun c => grank i (fst c)) (fun c => ghelp i (fst c)) GP_step GP_mono GP_prog GP_keep GP_fair 6 c c' R Pc).
+    apply (grank_le6 sc). apply Pc.
+  Qed.
+End ExitRounds.
+
+
+(* ---------- the caller, once every goroutine is gone ---------- *)
+
+Definition allexit (sc : script) (s : st) : Prop := forall i, i < length sc -> is_exit (s_g s i) = true.
+
+Definition carank (s : st) : nat := match s_c s with CWait => 3 | CCancel => 2 | CRet => 1 | _ => 0 end.
+
+Lemma allexit_allret : forall sc s, allexit sc s -> allret sc s.
+Proof. intros sc s A i L. specialize (A i L). destruct (s_g s i); try discriminate A. discriminate. Qed.
+
+Lemma is_exit_act : forall sc s t e s' i, SInv sc s -> act sc s t = Some (e, s') ->
+  is_exit (s_g s i) = true -> is_exit (s_g s' i) = true.
+Proof.
+  intros sc s t e s' j I H X.
+  act_inv H; simpl; auto.
+  1: { gcase j i; [|exact X]. rewrite (sinv_unspawned sc s I i) in X; [discriminate X|]. rewrite Heqc. simpl. lia. }
+  all: gcase j i; [rewrite Heqg in X; discriminate X | exact X].
+Qed.
+
+Lemma carank_mono : forall sc s t e s', SInv sc s -> allexit sc s -> act sc s t = Some (e, s') -> carank s' <= carank s.
+Proof.
+  intros sc s t e s' I A H. pose proof (allret_caller sc s I (allexit_allret sc s A)) as AC. pose proof (i_range sc s I) as RG.
+  unfold carank. act_inv H; simpl in *; try lia.
+Qed.
+
+Lemma carank_prog : forall sc s, SInv sc s -> allexit sc s -> 0 < carank s ->
+  exists ev s', act sc s TC = Some (ev, s') /\ carank s' < carank s.
+Proof.
+  intros sc s I A Pos. unfold carank in *. unfold act. destruct (s_c s) eqn:C; try lia.
+  - pose proof (i_count sc s I) as K. rewrite C in K. simpl in K. rewrite (cnt_exit_all _ _ A) in K.
+    assert (Z : s_cnt s = 0) by lia. rewrite Z. simpl. eexists; eexists; split; [reflexivity|]. simpl. lia.
+  - eexists; eexists; split; [reflexivity|]. simpl. lia.
+  - eexists; eexists; split; [reflexivity|]. simpl. lia.
+Qed.
+
+Section WaitRounds.
+  Variable sc : script.
+
+  Definition WP (c : cfg) : Prop := Inv sc c /\ allexit sc (fst c).
+
+  Lemma WP_step : forall c t, WP c -> WP (step sc c t).
+  Proof.
+    intros c t [HI A]. split; [apply inv_step; exact HI|]. intros j L. specialize (A j L).
+    destruct (step_cases sc c t) as [[_ ->]|(ev & s' & H & ->)]; [exact A|]. simpl. eapply is_exit_act; eauto. apply HI.
+  Qed.
+
+  Lemma WP_mono : forall c t, WP c -> carank (fst (step sc c t)) <= carank (fst c).
+  Proof.
+    intros c t [[I _] A]. destruct (step_cases sc c t) as [[_ ->]|(ev & s' & H & ->)]; [lia|].
+    simpl. eapply carank_mono; eauto.
+  Qed.
+
+  Lemma WP_prog : forall c, WP c -> 0 < carank (fst c) -> carank (fst (step sc c TC)) < carank (fst c).
+  Proof.
+    intros [s tr] [[I _] A] Pos. simpl in *. destruct (carank_prog sc s I A Pos) as (ev & s' & H & L).
+    rewrite (step_some _ _ _ _ _ _ H). exact L.
+  Qed.
+
+  Lemma wait_within_three_rounds : forall c c', WP c -> erounds sc 3 c c' -> WP c' /\ carank (fst c') = 0.
+  Proof.
+    intros c c' Pc R.
+    apply (rounds_zero sc WP (fun c => carank (fst c)) (fun _ => TC) WP_step WP_mono WP_prog) with (n := 3) (c := c); auto.
+    - intros _ seg _ _ [F _]. exact F.
+    - unfold carank. destruct (s_c (fst c)); lia.
+  Qed.
+End WaitRounds.
+
+Lemma erounds_split : forall sc a b c c', erounds sc (a + b) c c' -> exists c1, erounds sc a c c1 /\ erounds sc b c1 c'.
+Proof.
+  induction a as [|a IH]; intros b c c' R.
+  - exists c. split; [constructor|exact R].
+  - simpl in R. inversion R as [|n c0 seg c0' F R']; subst. destruct (IH b _ _ R') as (c1 & R1 & R2).
+    exists c1. split; [econstructor; eauto|exact R2].
+Qed.
+
+(* 5. from every state of every execution in which all worker functions have returned, nine fair rounds - whatever the
+   order inside them - bring Wait to return: six until the last goroutine is gone (one to get into the Once, three for
+   its owner to release it, one to get past it, one for wg.Done), three for wg.Wait, the cancel and the return *)
+Theorem deadlock_free : forall sc sched c',
+  allret sc (fst (exec sc sched)) -> erounds sc 9 (exec sc sched) c' -> wait_result (fst c') <> None.
+Proof.
+  intros sc sched c' A R. destruct (erounds_split sc 6 3 _ _ R) as (c1 & R1 & R2).
+  assert (P0 : GP sc (exec sc sched)) by (split; [apply inv_exec|exact A]).
+  assert (W1 : WP sc c1).
+  { destruct (exits_within_six_rounds sc 0 _ _ P0 R1) as [[HI A1] _]. split; [exact HI|]. intros i L.
+    destruct (exits_within_six_rounds sc i _ _ P0 R1) as [_ Z]. specialize (A1 i L).
+    unfold grank, gr in Z. destruct (s_g (fst c1) i); simpl in *; try lia; try reflexivity; contradiction A1; reflexivity. }
+  destruct (wait_within_three_rounds sc _ _ W1 R2) as [[[I _] A'] Z].
+  pose proof (allret_caller sc _ I (allexit_allret sc _ A')) as AC. pose proof (i_range sc _ I) as RG.
+  unfold wait_result. unfold carank in Z. destruct (s_c (fst c')); simpl in *; try lia. discriminate.
+Qed.
